@@ -218,13 +218,13 @@ pub fn run(tier: Tier) -> i32 {
             scenarios.push((vec![all[a], all[b]], None));
         }
     }
-    let k3 = tier.pick(2, 4);
+    let k3 = tier.pick(2, 6);
     for t in [[Entry::Direct, Entry::Put, Entry::Rpc], [Entry::Put, Entry::Put, Entry::GetState], [Entry::Rpc, Entry::Rpc, Entry::Direct], [Entry::Repair, Entry::Put, Entry::Rpc]] {
         scenarios.push((t.to_vec(), Some(k3)));
     }
     // the same pairs once more at single-task-poll granularity (background tasks stepped one
     // poll at a time), deviation-bounded
-    let fine_bound = tier.pick(3, 4);
+    let fine_bound = tier.pick(3, 5);
     let fine_scenarios: Vec<(Vec<Entry>, Option<usize>)> = scenarios.iter().filter(|(p, _)| p.len() == 2).map(|(p, _)| (p.clone(), Some(fine_bound))).collect();
     for (paths, bound) in &fine_scenarios {
         let cfg = ExploreCfg { max_deviations: *bound, max_executions: 2_000_000, determinism_check_every: 53 };
